@@ -154,7 +154,7 @@ class Pool(object):
     def versions(self):
         return list(self.workers)
 
-    def call(self, op, args, versions=None, budget=None):
+    def call(self, op, args, versions=None, budget=None, retry_factor=5):
         """Send to each version, gather.  Returns {version: result-dict}.  A
         result has status ok|reject|violation|inconclusive|crash; harness errors
         inside the worker raise HarnessError."""
@@ -166,15 +166,15 @@ class Pool(object):
             try:
                 pend[v] = self.workers[v].send(op, args)
             except WorkerDied:
-                res[v] = self._retry(v, op, args, budget, died=True)
+                res[v] = self._retry(v, op, args, budget * retry_factor, died=True)
         for v, rid in pend.items():
             try:
                 out = self.workers[v].recv(rid, budget)
             except WorkerDied:
-                res[v] = self._retry(v, op, args, budget, died=True)
+                res[v] = self._retry(v, op, args, budget * retry_factor, died=True)
                 continue
             except WorkerTimeout:
-                res[v] = self._retry(v, op, args, budget, died=False)
+                res[v] = self._retry(v, op, args, budget * retry_factor, died=False)
                 continue
             res[v] = self._unwrap(v, out)
         return res
@@ -194,7 +194,7 @@ class Pool(object):
         w.restart()
         try:
             rid = w.send(op, args)
-            out = w.recv(rid, budget * 5)
+            out = w.recv(rid, budget)
             return self._unwrap(v, out)
         except WorkerDied:
             w.restart()
